@@ -281,6 +281,15 @@ func parseRuleStrict(rule *yaml.Node, contentLines []string) Rule {
 		}
 	}
 
-	pr, _ := parseRule(rule, 0, 0, contentLines)
+	pr, isEmpty := parseRule(rule, 0, 0, contentLines)
+	if isEmpty && pr.Error.Err == nil {
+		return Rule{
+			Lines: pr.Lines,
+			Error: ParseError{
+				Line: rule.Line,
+				Err:  fmt.Errorf("incomplete rule, no %s or %s key", alertKey, recordKey),
+			},
+		}
+	}
 	return pr
 }
